@@ -332,7 +332,7 @@ impl Property for C10 {
 
     fn cases(&self, tier: Tier) -> u32 {
         match tier {
-            Tier::Quick => 5_000,
+            Tier::Quick => 25_000,
             Tier::Thorough => 100_000,
         }
     }
